@@ -130,19 +130,21 @@ impl Word {
                     .replace(':', "ː")
                     .replace(';', "ː.");
 
-        let t_amer = t_norm
-                    .replace('¢', "t͡s")
-                    .replace('ƛ', "t͡ɬ")
-                    .replace('λ', "d͡ɮ")
-                    .replace('ł', "ɬ")
-                    .replace('ñ', "ɲ");
-
-        if t_amer != t_norm {
-            w.americanist = true
-        }
-        w.setup(t_amer, aliases)?;
+        // americanist characters are inbuilt aliases: they are read where they stand (`americanist_to_ipa`), after the custom mappings
+        w.setup(t_norm, aliases)?;
 
         Ok(w)
+    }
+
+    fn americanist_to_ipa(ch: char) -> Option<&'static str> {
+        match ch {
+            '¢' => Some("t͡s"),
+            'ƛ' => Some("t͡ɬ"),
+            'λ' => Some("d͡ɮ"),
+            'ł' => Some("ɬ"),
+            'ñ' => Some("ɲ"),
+            _ => None
+        }
     }
 
     fn to_ipa(&self, ch: char) -> char {
@@ -365,7 +367,10 @@ impl Word {
         }
 
         // GET SEG
-        let mut buffer = self.to_ipa(txt[*i]).to_string();
+        let mut buffer = match Self::americanist_to_ipa(txt[*i]) {
+            Some(ipa) => { self.americanist = true; ipa.to_string() },
+            None => self.to_ipa(txt[*i]).to_string()
+        };
         
         if CARDINALS_TRIE.contains_prefix(buffer.as_str()) {
             *i += 1;
